@@ -208,6 +208,10 @@ func genC04(c *Ctx, r *rng.R, i int) {
 		c04StructuralToCollection(c, r)
 		return
 	}
+	if i%13 == 3 {
+		c04DynamicReceiver(c, r)
+		return
+	}
 	switch r.Intn(16) {
 	case 0, 1, 2, 3, 4, 5:
 		c04Ops(c, r)
@@ -675,6 +679,37 @@ func c04SetVal(c *Ctx, r *rng.R) {
 	if !us.RawEquals(cty.SetVal(stripAll(vs))) {
 		c.Fail("C04/result-changed", "SetVal of marked members differs from SetVal of stripped members", desc)
 	}
+}
+
+// c04DynamicReceiver: the indexing and membership methods on a receiver whose type is not known yet
+// (the dynamic placeholder), with marks on the receiver, on the key, or on both: the answer is unknown
+// and still carries every mark.
+func c04DynamicReceiver(c *Ctx, r *rng.R) {
+	recv := cty.DynamicVal
+	if r.Chance(25) {
+		recv = cty.NullVal(cty.DynamicPseudoType)
+	}
+	key := []cty.Value{cty.NumberIntVal(int64(r.Intn(3))), cty.StringVal("a"), cty.DynamicVal, cty.UnknownVal(cty.Number), cty.UnknownVal(cty.String)}[r.Intn(5)]
+	switch r.Intn(3) {
+	case 0:
+		recv = recv.Mark("r")
+	case 1:
+		key = key.Mark("k")
+	default:
+		recv, key = recv.Mark("r"), key.Mark("k")
+	}
+	op := []string{"OHasIndex", "OIndex", "OHasElem", "OEq"}[r.Intn(4)]
+	args := []cty.Value{recv, key}
+	desc := map[string]interface{}{"op": op, "args": showAll(args), "family": "dynamic-receiver"}
+	ret, p, _ := runOp(op, args)
+	c.Add("op/"+op, k04k(fmt.Sprintf("K_op %s %s %s", op, cq.ValList(args), cq.ResVal(ret, p))), desc, true)
+	c.paired("op "+op, args, func(as []cty.Value) (cty.Value, error) {
+		ret, p, msg := runOp(op, as)
+		if p {
+			panic(msg)
+		}
+		return ret, nil
+	}, true, desc)
 }
 
 // c04StructuralToCollection: a tuple or object whose members are individually marked, some of them
